@@ -240,3 +240,76 @@ def write_programs(crate, progs, prefix="gen_e"):
             with open(path, "w") as f:
                 f.write(src)
     return nlines
+
+
+# --------------------------------------------------------------------------------------------
+# rejected definitions (spec/entryderive/EntryDeriveNeg.tla): one program, one definition per line
+# --------------------------------------------------------------------------------------------
+COMBO_PART = {"name": 'name = "x_y"', "format": "format = FmtToString", "ignore": "ignore", "flatten": "flatten",
+              "timestamp": "timestamp", "sample_group": "sample_group"}
+UNNAMED = {"u64": ("", "u64"), "str": ("", "String"), "sg": ("#[entry(sample_group)]", "&'static str"),
+           "fmt": ("#[entry(format = FmtToString)]", "u64"), "optnone": ("", "Option<u64>"), "optsome": ("", "Option<u64>")}
+
+
+def bad_decl(tok, i, tuple_shape):
+    ident = written(1, i)
+    d = tok["d"]
+    if d == "dupname":
+        attr, ty = f"#[entry(name = {rust_str(tok['name'])})]", "u64"
+    elif d == "dupts":
+        attr, ty = "#[entry(timestamp)]", "SystemTime"
+    elif d == "tupleunnamed":
+        attr, ty = UNNAMED[tok["k"]]
+    elif d == "emptyname":
+        attr, ty = '#[entry(name = "")]', "u64"
+    elif d == "combo":
+        attr, ty = "#[entry(" + ", ".join(COMBO_PART[p] for p in tok["c"].split("+")) + ")]", "u64"
+    elif d == "unknownattr":
+        attr, ty = "#[entry(bogus)]", "u64"
+    else:
+        raise ValueError(d)
+    return f"{attr} {ty}".strip() if tuple_shape else f"{attr} {ident}: {ty}".strip()
+
+
+def neg_program(behaviours):
+    """behaviours: list of (id, {"toks":..,"msg":..}) -> (source, {line number: (id, expected msg or None for a control)})"""
+    helper = Program("neg", False)
+    head = ["// generated by tools/gen_entryderive.py from spec/entryderive/EntryDeriveNeg.tla - must NOT compile",
+            "#![allow(warnings, clippy::all)]", "use metrique_writer::Entry;",
+            "use metrique_writer::value::ToString as FmtToString;", "use std::time::SystemTime;"]
+    lines = list(head)
+    where = {}
+    seen_controls = set()
+    n = 0
+
+    def one_line(name, node, decls):
+        shape = shape_of(node.form)
+        cattr = f'#[entry(rename_all = "{node.ra}")] ' if node.ra != "none" else ""
+        body = ("{ " + ", ".join(decls) + " }") if shape == "named" else ("(" + ", ".join(decls) + ")" if shape == "tuple" else "")
+        if node.form in STRUCT_FORMS:
+            return f"#[derive(Entry)] {cattr}struct {name} {body}{'' if shape == 'named' else ';'}"
+        vattr = f'#[entry(rename_all = "{node.vra}")] ' if node.vra != "inherit" else ""
+        chosen = f"{vattr}Chosen {body}"
+        other = f"Other {{ {written(1, 1)}: u64, #[entry(timestamp)] at: SystemTime }}"
+        variants = [chosen] if node.form.startswith("e1_") else [other, chosen, "Idle"]
+        return f"#[derive(Entry)] {cattr}enum {name} {{ " + ", ".join(variants) + " }"
+
+    for bid, b in behaviours:
+        toks = b["toks"]
+        good = [t for t in toks if t["t"] != "B"]
+        bad = [t for t in toks if t["t"] == "B"]
+        node = parse(good)
+        shape = shape_of(node.form)
+        decls = [helper.field_decl(node, i + 1, f, None, shape == "tuple") for i, f in enumerate(node.fields)]
+        if node.ra != "Title Case" and node.vra != "Title Case":
+            ckey = repr(good)
+            if ckey not in seen_controls:
+                seen_controls.add(ckey)
+                lines.append(one_line(f"Ctl{n}", node, decls))
+                where[len(lines)] = (bid + "-control", None)
+        bdecls = decls + [bad_decl(t, len(decls) + 1, shape == "tuple") for t in bad]
+        lines.append(one_line(f"Neg{n}", node, bdecls))
+        where[len(lines)] = (bid, b["msg"])
+        n += 1
+    lines.append("fn main() {}")
+    return "\n".join(lines) + "\n", where
